@@ -34,7 +34,29 @@ if os.path.exists(jp):
     tot = len(db); caught = sum(1 for r in db.values() if r["verdict"] == "CAUGHT")
     st += f"\n{caught} of {tot} changes caught by the checks named for them (quick tier); the remaining entries are equivalent changes that must stay quiet or are discussed below.\n"
 
-for tag, body in (("FINDINGS", ft), ("SENSITIVITY", st)):
+# ---- per-property sub-check inventory, straight from the code -------------------------------------------------
+import importlib, sys
+sys.path.insert(0, VERIF)
+sb = "| property | sub-checks (quick examples x shards / thorough examples x shards; `enum` = enumerated grid) |\n|---|---|\n"
+try:
+    from synverif import env  # noqa: F401
+    for i in range(1, 21):
+        pid = f"C{i:02d}"
+        mod = importlib.import_module(f"synverif.props.{pid.lower()}")
+        subs = mod.subchecks()
+        groups = {}
+        for s_ in subs:
+            key = (s_.quick, s_.shards_quick, s_.thorough, s_.shards_thorough, s_.enum is not None)
+            groups.setdefault(key, []).append(s_.name)
+        parts = []
+        for (q, sq, t, stt, en), names in groups.items():
+            shown = ", ".join(names[:6]) + (f", ... ({len(names)} in all)" if len(names) > 6 else "")
+            parts.append(f"{shown}: " + ("enum" if en else f"{q}x{sq} / {t}x{stt}"))
+        sb += f"| {pid} | " + "; ".join(parts).replace("|", "/") + " |\n"
+except Exception as e:  # noqa: BLE001
+    sb = f"(could not import the property modules: {e})\n"
+
+for tag, body in (("FINDINGS", ft), ("SENSITIVITY", st), ("SUBCHECKS", sb)):
     pat = re.compile(rf"(<!-- BEGIN {tag} -->).*?(<!-- END {tag} -->)", re.S)
     if not pat.search(d):
         raise SystemExit(f"marker {tag} missing in DESIGN.md")
